@@ -804,7 +804,7 @@ type wireResp struct {
 
 // responses carrying "collection":null (FetchCollection returns a nil slice for
 // Limit == 0 and QueryHandler passes it on); read as the empty collection, counted.
-var nullCollections int32
+var nullCollections, nullSeen int32
 
 // parse a get / query response: kind 0 no events, 1 collection, 2 error
 func parseResp(b []byte, ok bool) (int, []string) {
@@ -1104,6 +1104,10 @@ func runC14(d c14desc, dist map[string]int, impl *[]ImplViolation) Case {
 		segTerms = append(segTerms, fmt.Sprintf("SG %s %s %s %s %s %s %s %s %s", List(mts), List(cur.changes), List(cbs), List(results),
 			List(pubs), List(cur.ar2), List(cur.ar4), List(resps), List(fr)))
 		mu.Unlock()
+	}
+	if n := atomic.LoadInt32(&nullCollections); n > nullSeen {
+		nullSeen = n
+		*impl = append(*impl, ImplViolation{What: "store.QueryHandler sent \"collection\":null on the wire (get response or query response of a query with Limit 0: FetchCollection returns a nil slice); a RES collection must be a JSON array", Desc: d, Tags: []string{"null-collection"}})
 	}
 	if hang {
 		*impl = append(*impl, ImplViolation{What: "a query request sent on a query event got no response (or the gateway goroutines hung)", Desc: d})
